@@ -13,6 +13,8 @@ from vlib import expr as X
 from vlib import modelgen as G
 from vlib.runner import Violation, Inconclusive, VERIF
 
+REPO = os.environ.get("VERIF_REPO") or "/repo"
+
 ID = "C09"
 BUDGET = {"quick": 96, "thorough": 1200}
 CASE_TIMEOUT = {"quick": 400, "thorough": 600}
@@ -133,7 +135,7 @@ def sample_view(case):
 def run_worker(texts, ops, hashseed, timeout=300):
     env = dict(os.environ)
     env["PYTHONHASHSEED"] = str(hashseed)
-    env["PYTHONPATH"] = "/repo/src" + os.pathsep + VERIF
+    env["PYTHONPATH"] = os.path.join(REPO, "src") + os.pathsep + VERIF
     p = subprocess.run(
         ["/venv/bin/python", "-m", "vlib.histworker"], input=json.dumps({"texts": texts, "ops": ops}), capture_output=True, text=True, env=env, cwd=VERIF, timeout=timeout
     )
@@ -246,7 +248,7 @@ def check_case(case):
 
 def extra(tier, seed):
     """the repository's real models under four hash seeds"""
-    files = sorted(glob.glob("/repo/tests/odefiles/*.ode"))
+    files = sorted(glob.glob(REPO + "/tests/odefiles/*.ode"))
     if tier == "quick":
         files = [f for f in files if "ToRORd" not in f]
     out = {"failures": [], "evaluations": 0, "nontrivial": [], "labels": {}, "samples": [], "coverage": {}}
